@@ -212,3 +212,74 @@ Proof.
   rewrite <- EP. apply rows_prefix_rejected; try assumption.
   rewrite EB, !app_length. destruct (e_row r); [congruence|]. cbn [length]. lia.
 Qed.
+
+(* ================= record.Marshal / Unmarshal ================= *)
+Lemma good_le : forall n, good (le n) (get_le n) (fun v => 0 <= v < 256 ^ Z.of_nat n).
+Proof.
+  intros n. split.
+  - intros v rest H. unfold get_le.
+    assert (L : length (le n v) = n) by apply le_length.
+    destruct (Nat.ltb_spec (length (le n v ++ rest)) n) as [Hlt|Hge]; [rewrite app_length in Hlt; lia|].
+    rewrite <- L at 1. rewrite firstn_app, Nat.sub_diag, firstn_all. cbn [firstn]. rewrite app_nil_r.
+    rewrite unle_le by assumption.
+    rewrite <- L at 1. rewrite skipn_app, Nat.sub_diag, skipn_all. reflexivity.
+  - intros v k _ Hk. rewrite le_length in Hk. unfold get_le.
+    destruct (Nat.ltb_spec (length (firstn k (le n v))) n); [reflexivity|].
+    rewrite firstn_length, le_length in *. lia.
+Qed.
+
+Lemma good_zint : good e_zint d_zint (fun v => 0 <= v < M64).
+Proof.
+  destruct (good_be 8) as [R Q]. rewrite pow256_8 in *. split.
+  - intros t rest H. unfold e_zint, d_zint. rewrite R by (apply zz_range; assumption).
+    cbn [omap]. rewrite unzz_zz by assumption. reflexivity.
+  - intros t k H Hk. unfold e_zint, d_zint in *. rewrite Q by (try apply zz_range; assumption). reflexivity.
+Qed.
+
+Lemma good_sized {A} (e : A -> list Z) (d : dec_t A) P : good e d P ->
+  good (put_sized e) (get_sized d) (fun a => P a /\ len (e a) < M32).
+Proof.
+  intros [R Q]. destruct (good_bytes 4) as [RB QB]. rewrite pow256_4 in *. split.
+  - intros a rest [Ha Hl]. unfold put_sized, get_sized. rewrite RB by assumption.
+    rewrite <- (app_nil_r (e a)). rewrite R by assumption. reflexivity.
+  - intros a k [Ha Hl] Hk. unfold put_sized, get_sized in *. rewrite QB by assumption. reflexivity.
+Qed.
+
+Definition Prec_field (f : rec_field) : Prop := rec_field_ok f = true.
+Definition Prec_col (c : rec_col) : Prop := rec_col_ok c = true.
+
+Lemma good_rec_field : good e_rec_field d_rec_field Prec_field.
+Proof.
+  eapply good_weaken. apply (good_pair _ _ _ _ _ _ (good_bytes 2) good_zint).
+  intros [n t] H. unfold Prec_field, rec_field_ok in H. cbn [fst snd] in *. rewrite pow256_2. lia.
+Qed.
+
+Lemma good_rec_col : good e_rec_col d_rec_col Prec_col.
+Proof.
+  eapply good_weaken.
+  - apply (good_pair _ _ _ _ _ _ good_zint (good_pair _ _ _ _ _ _ good_zint (good_pair _ _ _ _ _ _ good_zint
+            (good_pair _ _ _ _ _ _ (good_bytes 4) (good_pair _ _ _ _ _ _ (good_bytes 4) (good_list 4 _ _ _ (good_le 4))))))).
+  - intros [l [n [o [val [bm offs]]]]] H. unfold Prec_col, rec_col_ok in H. cbn [fst snd].
+    repeat (apply andb_true_iff in H; destruct H as [H ?]).
+    rewrite pow256_4.
+    repeat split; try lia. apply forallb_Forall in H0. eapply Forall_impl; [|exact H0]. cbv beta. intros. lia.
+Qed.
+
+Theorem record_marshal_roundtrip : forall r rest, record_ok r = true -> d_record (e_record r ++ rest) = Some (r, rest).
+Proof.
+  intros [fs cs] rest H. unfold record_ok in H. cbn [fst snd] in H.
+  apply andb_true_iff in H. destruct H as [H H0]. apply andb_true_iff in H. destruct H as [H H1].
+  apply andb_true_iff in H. destruct H as [H HC]. apply andb_true_iff in H. destruct H as [HA H2].
+  assert (G : good e_record d_record (fun r => (len (fst r) < M32 /\ Forall (fun f => Prec_field f /\ len (e_rec_field f) < M32) (fst r)) /\
+                                               (len (snd r) < M32 /\ Forall (fun c => Prec_col c /\ len (e_rec_col c) < M32) (snd r)))).
+  { pose proof (good_pair _ _ _ _ _ _ (good_list 4 _ _ _ (good_sized _ _ _ good_rec_field))
+                                        (good_list 4 _ _ _ (good_sized _ _ _ good_rec_col))) as G.
+    rewrite pow256_4 in G. exact G. }
+  destruct G as [R _]. apply R. cbn [fst snd].
+  apply forallb_Forall in H2. apply forallb_Forall in H0. apply forallb_Forall in H1.
+  repeat split; try lia.
+  - eapply Forall_impl; [|exact H2]. cbv beta. intros [n t] Hf. split; [exact Hf|].
+    unfold e_rec_field, e_pair, put_bytes, e_zint. cbn [fst snd]. rewrite !len_app. unfold len. rewrite !be_length.
+    unfold Prec_field, rec_field_ok, len in Hf. cbn [fst snd] in Hf. unfold M32. lia.
+  - rewrite Forall_forall in *. intros c Hc. split; [apply H1; exact Hc|]. specialize (H0 c Hc). cbv beta in H0. lia.
+Qed.
